@@ -299,12 +299,15 @@ async def _min_max(
     :param invert: compute ``max`` if ``True`` and ``min`` otherwise
     """
     async with ScopedIter(iterable) as item_iter:
-        best = await anext(item_iter, default=default)
-        # this implies that item_iter is empty and default is __MIN_MAX_DEFAULT
-        if best is __MIN_MAX_DEFAULT:  # type: ignore
-            name = "max" if invert else "min"
-            raise ValueError(f"{name}() arg is an empty sequence")
-        elif key is None:
+        try:
+            best = await anext(item_iter)
+        except StopAsyncIteration:
+            # the default is returned as is, it is never passed to ``key``
+            if default is __MIN_MAX_DEFAULT:  # type: ignore
+                name = "max" if invert else "min"
+                raise ValueError(f"{name}() arg is an empty sequence") from None
+            return default
+        if key is None:
             async for item in item_iter:
                 if (item > best) if invert else (item < best):
                     best = item
